@@ -13,6 +13,7 @@ import (
 	"strings"
 	"time"
 
+	"verif/internal/c05"
 	"verif/internal/core"
 	"verif/internal/fam"
 	"verif/internal/rast"
@@ -113,6 +114,14 @@ func Main(tier, replay string) {
 			cases = append(cases, c)
 		}
 	}
+	// every numeric width, the slices in query and the several-parameter signatures of the binding space (C05)
+	bc, _, _ := c05.Space("quick")
+	for _, c := range bc {
+		if in := c.Features["in"]; c.Features["alias"] == "" && (tier == "thorough" || c.Features["validate"] == "" && (in == "Query" || in == "several" || in == "Body" || c.Features["ptr"] == "false")) {
+			c.Unit.Imports = map[string][]string{c.Unit.Controllers[0].Pkg: {"context"}} // some of these take a context parameter
+			cases = append(cases, c)
+		}
+	}
 	cases = append(cases, adversarial()...)
 	if replay != "" {
 		_, v := core.LoadReplay(replay)
@@ -170,7 +179,7 @@ func Main(tier, replay string) {
 						}
 					}
 				}
-				run.Outcome("rejected: "+strings.SplitN(reason, ":", 2)[0], 1)
+				run.Outcome("rejected: "+strings.SplitN(reason, ":", 2)[0]+" ["+c.Features["family"]+c.Features["kind"]+"/"+c.Features["in"]+"]", 1)
 				continue
 			}
 			if !checkedRun[cr.Run] {
@@ -289,7 +298,7 @@ func Main(tier, replay string) {
 	run.Set("scenario_runs_rejected", rejected)
 	run.Sample(cases[0])
 	run.Sample(cases[len(cases)-1])
-	run.Bound = fmt.Sprintf("%d scenarios (signature and type families, %d adversarial identifier/package-name/layout cases) x 5 engines x %d flag sets (validateTopLevelOnlyEnum, generateEnumValidator, validateResponsePayload); through the real CLI every history of <= 2 (thorough: 3) commands over 4 (controller set, engine, command) letters from 3 initial states of the routes file", len(cases), len(adversarial()), len(flagSets))
+	run.Bound = fmt.Sprintf("%d scenarios (signature, type and binding-space families, %d adversarial identifier/package-name/layout cases) x 5 engines x %d flag sets (validateTopLevelOnlyEnum, generateEnumValidator, validateResponsePayload); through the real CLI every history of <= 2 (thorough: 3) commands over 4 (controller set, engine, command) letters from 3 initial states of the routes file", len(cases), len(adversarial()), len(flagSets))
 	run.Rule = "state = (scenario, engine, flag set); transition = one routes generation + gofmt check + real `go build` of the generated packages with the user's controllers and authorization package; validated = generated files checked"
 	run.Assumptions = []string{"a scenario whose route generation returns an error is allowed (rejected rather than producing a file)"}
 	os.RemoveAll(scratch)
